@@ -469,6 +469,33 @@ private:
   }
 };
 
+// ------------------------------------------------------------------------------ atomic_flag
+class atomic_flag
+{
+public:
+  atomic_flag() noexcept : v_(false) {}
+  atomic_flag(int v) noexcept : v_(v != 0) {}   // "= ATOMIC_FLAG_INIT"
+  atomic_flag(const atomic_flag &)            = delete;
+  atomic_flag &operator=(const atomic_flag &) = delete;
+  bool test_and_set(std::memory_order = std::memory_order_seq_cst) noexcept
+  {
+    Sched::I().point(Pending{});
+    bool old = v_;
+    v_       = true;
+    Sched::I().log("tas " + Sched::I().obj_name(this) + " " + (old ? "1" : "0"));
+    return old;
+  }
+  void clear(std::memory_order = std::memory_order_seq_cst) noexcept
+  {
+    Sched::I().point(Pending{});
+    v_ = false;
+    Sched::I().log("clr " + Sched::I().obj_name(this));
+  }
+
+private:
+  bool v_;
+};
+
 // ------------------------------------------------------------------------------ mutex
 class mutex
 {
